@@ -130,3 +130,23 @@ def h_refuse_direct_with_several_recipients():
 
 HARNESSES = [h_dir, h_aeskw, h_gcmkw, h_pbes2, h_rsa, h_ecdh_es, h_ecdh_es_direct_encs, h_zip, h_json_two_recipients, h_flattened_json,
              h_refuse_direct_with_several_recipients]
+
+
+def h_1pu_key_wrapping_refuses_non_cbc_hmac_encs():
+    """ECDH-1PU key agreement with key wrapping is only defined for the AES_CBC_HMAC_SHA2 content encryptions: every other
+    content-encryption model (AES-GCM and the ChaCha20 drafts) is refused at encryption time; direct mode accepts any."""
+    from joserfc.drafts.jwe_ecdh_1pu import JWE_ALG_MODELS as ONE_PU
+    from joserfc.drafts.jwe_chacha20 import JWE_ENC_MODELS as CHACHA
+    from joserfc.rfc7518.jwe_encs import JWE_ENC_MODELS as RFC_ENCS
+    alg = sym_choice("alg", ONE_PU)
+    enc = sym_choice("enc", list(RFC_ENCS) + list(CHACHA))
+    out = call(alg.encrypt_agreed_upon_key, enc, None)
+    cbc = enc.name in ("A128CBC-HS256", "A192CBC-HS384", "A256CBC-HS512")
+    if alg.name != "ECDH-1PU" and not cbc:
+        check(out.raised(InvalidEncryptionAlgorithmError), "ECDH-1PU+KW with a content encryption outside AES_CBC_HMAC_SHA2 is refused at encryption time")
+    else:
+        check(not out.raised(InvalidEncryptionAlgorithmError), "permitted ECDH-1PU combinations are not refused by the content-encryption gate")
+
+
+h_1pu_key_wrapping_refuses_non_cbc_hmac_encs.seed_fn = lambda rnd: {"alg": rnd.randrange(4), "enc": rnd.randrange(8)}
+HARNESSES.append(h_1pu_key_wrapping_refuses_non_cbc_hmac_encs)
